@@ -16,6 +16,16 @@ BASE = {"&", "<", ">"}
 ENTITY = {"&": "&amp;", "<": "&lt;", ">": "&gt;"}
 
 
+def _content_total(repo, rep):
+    from .c01 import content_node_total
+    okc, detail = content_node_total(repo)
+    rep.check(okc, "R02.1", "chameleon.zpt.program.MacroProgram."
+              "_make_content_node", "every tal:content / tal:replace / "
+              "on-error expression goes through Content with the escape set "
+              "of its keyword (no raw Text shortcut)",
+              construct="content-total", detail=detail)
+
+
 def run(repo, rep, tier):
     rep.explanation = (
         "A taint problem decided on the code itself.  (1) Sinks: every "
@@ -51,6 +61,7 @@ def run(repo, rep, tier):
                       "that is escaped")
     rep.rule("R02.5", "opt-outs are exactly: structure, CDATA, text mode")
     _sinks(repo, rep)
+    _content_total(repo, rep)
     _routing(repo, rep)
     _quote_paths(repo, rep, tier)
     _entities(repo, rep)
